@@ -544,6 +544,41 @@ func (w *World) NextBlock(emptyPct int) *BlockResult {
 	return res
 }
 
+// NextBlockBy lets a given replica (e.g. an observer whose pool the harness filled) propose
+// the next block; every live replica receives it through the normal path.
+func (w *World) NextBlockBy(p *Replica) *BlockResult {
+	res := &BlockResult{Errs: map[string]error{}, Proposer: p}
+	prop := w.Propose(p)
+	res.Block = prop.Block
+	v := w.View()
+	if c, ok := w.MakeCert(v, v.AppState.ValidatorsCache, v.Head(), prop.Block, types.Final); ok {
+		w.Certs[prop.Block.Hash()] = c.Compress()
+	}
+	if w.beforeDistribute != nil {
+		w.beforeDistribute(prop.Block, p)
+	}
+	for _, r := range w.Replicas {
+		if !r.Alive || r == p {
+			continue
+		}
+		if err := r.Receive(prop); err != nil {
+			res.Errs[r.Name] = err
+		}
+	}
+	if err := p.Receive(prop); err != nil {
+		res.Errs[p.Name] = err
+	}
+	w.Stats["proposed_blocks"]++
+	w.Stats["txs_in_blocks"] += len(prop.Block.Body.Transactions)
+	if len(res.Errs) == 0 {
+		w.Blocks = append(w.Blocks, res.Block)
+		for _, f := range w.OnBlock {
+			f(w, res.Block)
+		}
+	}
+	return res
+}
+
 func (w *World) liveReplica() *Replica {
 	var l []*Replica
 	for _, r := range w.Replicas {
